@@ -33,6 +33,11 @@ class Inconclusive(Exception):
     """Raised by a check when its deciding monitor cannot observe."""
 
 
+class WorkloadTooHeavy(BaseException):
+    """One call into the library used more CPU than any case of a property's workload should (a generated template that grows
+    geometrically, say).  Never a verdict: the case is skipped and counted; termination itself is C09's subject, on its own clock."""
+
+
 class CaseWatchdog(BaseException):
     """Raised in the main thread by the per-case wall-clock watchdog (never a verdict: the case is inconclusive)."""
 
